@@ -589,7 +589,7 @@ def run_job(job):
                 ordered2 = patching.Orderer.from_hw(hw).order_config(new)
                 res["ordered_from_hw"] = env.tree_to_list(ordered2)
             else:
-                diff, patch = api._diff_and_patch(device, old, new, acl, facl, job["add_comments"], ref_track=rt,
+                diff, patch = env.diff_and_patch(device, old, new, acl, facl, job["add_comments"], ref_track=rt,
                                                   rb=(rb if synthetic else None))
                 res["diff"] = _diff_rows(diff)
                 res["diff_attrs"] = statehash.digest_of(diff)
